@@ -28,6 +28,7 @@ import PetgraphModel.Proofs.C20W4Scope
 import PetgraphModel.Proofs.C20W4DsaturBin
 import PetgraphModel.Proofs.C20W4DsaturBinTotal
 import PetgraphModel.Proofs.C20W4CliquesRun
+import PetgraphModel.Proofs.C20W6Corners
 /-
 C20 — cliques, colouring, feedback arcs, reduction/closure, simple paths, Steiner tree, PageRank.
 
@@ -812,6 +813,65 @@ theorem C20_cliques_run_exact (g : MGraph) (hd : g.directed = false) (hnd : g.no
     (∀ c ∈ out, c.Nodup ∧ ∀ x ∈ c, x ∈ g.nodes) ∧ (out.map (canon g)).Nodup ∧
     ∀ S, S.Sublist g.nodes → (S ∈ out.map (canon g) ↔ IsMaxClique g S) :=
   CliquesRun.check_exact_undirected g hd hnd out h
+
+/-! ## wave 6 — the corners of the property
+
+The wave-6 correspondence run drives the algorithms at the corners of their documented domains (and on
+every adaptor / index type / weight type the trait bounds admit).  Where the corner has a statement of its
+own it is proved here: a target that is not a node of the graph (an index beyond the bound, the stale id
+of a removed node), a lower bound above the upper bound, the damping factor at the upper end of its range.
+The harness-side `law …` lines (iterator contracts, independence of `TargetColl` / hasher / output index
+type / float width, capacity of `u8` indices) are checks of the implementation against itself and have no
+Lean counterpart. -/
+
+/-- **absent target — the judge**: if `b` is not a node of the graph the only accepted answer is the empty
+one, whatever the bounds. -/
+theorem C20_paths_absent_target (g : MGraph) (hg : EndpointsOk g) (a b lo : Nat) (hi : Option Nat)
+    (hb : b ∉ g.nodes) (out : List (List Nat)) (h : judgePaths g a b lo hi out = none) : out = [] :=
+  eq_nil_of_forall_not out _ (fun p hp => ((C20_paths_judge_sound g a b lo hi out h).1 p).1 hp)
+    (no_simplePath_to_absent g hg a b lo hi hb)
+
+/-- **absent target — the mirrored iterator** yields nothing (for every fuel that suffices). -/
+theorem C20_paths_absent_target_model (g : MGraph) (hg : EndpointsOk g) (a b lo : Nat) (hi : Option Nat)
+    (hab : a ≠ b) (hb : b ∉ g.nodes) (count fuel : Nat) (out : List (List Nat))
+    (h : Paths.allSimplePaths g.succ count a b lo hi fuel = some out) : out = [] :=
+  eq_nil_of_forall_not out _ (C20_paths_model_sound g a b lo hi hab count fuel out h)
+    (no_simplePath_to_absent g hg a b lo hi hb)
+
+/-- **`min > max` — the judge**: with an upper bound below the lower bound nothing qualifies. -/
+theorem C20_paths_empty_bounds (g : MGraph) (a b lo hmax : Nat) (hlt : hmax < lo) (out : List (List Nat))
+    (h : judgePaths g a b lo (some hmax) out = none) : out = [] :=
+  eq_nil_of_forall_not out _ (fun p hp => ((C20_paths_judge_sound g a b lo (some hmax) out h).1 p).1 hp)
+    (no_simplePath_empty_bounds g a b lo hmax hlt)
+
+/-- **`min > max` — the mirrored iterator** yields nothing. -/
+theorem C20_paths_empty_bounds_model (g : MGraph) (a b lo hmax : Nat) (hab : a ≠ b) (hlt : hmax < lo)
+    (count fuel : Nat) (out : List (List Nat))
+    (h : Paths.allSimplePaths g.succ count a b lo (some hmax) fuel = some out) : out = [] :=
+  eq_nil_of_forall_not out _ (C20_paths_model_sound g a b lo (some hmax) hab count fuel out h)
+    (no_simplePath_empty_bounds g a b lo hmax hlt)
+
+-- non-vacuity: the hypotheses are satisfiable in both corners (the `Decidable` instance of `IsSimplePathIn`
+-- is built by `simp` and does not reduce in the kernel, so the judge's own verdicts on these inputs —
+-- `none` for `[]`, `some _` for `[[0, 1, 2]]` — are `#eval`-checked, not `decide`d; the run-time driver
+-- evaluates exactly these calls)
+example : EndpointsOk ⟨true, [0, 1, 2], [⟨0, 0, 1, 1⟩, ⟨1, 1, 2, 1⟩]⟩ ∧ 7 ∉ [0, 1, 2] := by decide
+example : Paths.allSimplePaths (MGraph.succ ⟨true, [0, 1, 2], [⟨0, 0, 1, 1⟩, ⟨1, 1, 2, 1⟩]⟩) 3 0 7 0 none 100 = some [] := by
+  decide
+example : Paths.allSimplePaths (MGraph.succ ⟨true, [0, 1, 2], [⟨0, 0, 1, 1⟩, ⟨1, 1, 2, 1⟩, ⟨2, 0, 2, 1⟩]⟩) 3 0 2 2 (some 1) 100 = some [] := by
+  decide
+
+/-- **damping factor 1** (the upper end of the documented range, "0 and 1 included"): on a non-empty
+well-formed graph the rational model is defined after any number of iterations, and returns one rank per
+node, every rank non-negative, summing to exactly 1. -/
+theorem C20_pagerank_damping_one (g : MGraph) (hne : g.nodes ≠ []) (hnd : g.nodes.Nodup)
+    (hg : ∀ e ∈ g.edges, e.src ∈ g.nodes ∧ e.tgt ∈ g.nodes) (k : Nat) :
+    ∃ r, PR.pageRank g 1 k = some r ∧ r.map (·.1) = g.nodes ∧ (∀ p ∈ r, 0 ≤ p.2) ∧ (r.map (·.2)).sum = 1 := by
+  have hd := C20_pagerank_defined g hne hnd hg 1 (by decide) (by decide) k
+  obtain ⟨r, hr⟩ := Option.isSome_iff_exists.mp hd
+  exact ⟨r, hr, C20_pagerank_sum g hne 1 (by decide) (by decide) k r hr⟩
+
+example : (PR.pageRank ⟨true, [0, 1, 2], [⟨0, 0, 1, 1⟩, ⟨1, 1, 2, 1⟩, ⟨2, 2, 0, 1⟩]⟩ 1 3).isSome = true := by decide +kernel
 
 /-! ## run-time checks of the hypotheses
 
